@@ -93,6 +93,7 @@ fn main() {
         "realtrunc" => fd::realtrunc(rest),
         "c05exec" => fd::c05exec(rest),
         "c05case" => fd::c05case(rest),
+        "c11exec" => fd::c11exec(rest),
         "mkcorpus" => gen::mkcorpus(rest),
         "encexec" => enc::encexec(rest),
         "encgraph" => enc::encgraph(rest),
